@@ -16,12 +16,12 @@
 EXTENDS JURef, TraceCommon
 
 VARIABLES cfg, parents, idx, closed, finished, out,
-          jg, jlow, jmatch, jspec, jrep, uq, ulow, l
+          jg, jlow, jmatch, jspec, jrep, nbar, uq, ulow, l
 
-J == INSTANCE Join WITH Inputs <- {}, Configs <- {}
+J == INSTANCE Join WITH Inputs <- {}, Configs <- {}, MaxBarriers <- 0
 U == INSTANCE Union WITH Inputs <- {}, Configs <- {}
 
-implvars == <<jg, jlow, jmatch, jspec, jrep, uq, ulow>>
+implvars == <<jg, jlow, jmatch, jspec, jrep, nbar, uq, ulow>>
 tvars == <<cfg, parents, idx, closed, finished, out, implvars, l>>
 
 Ln == Trace[l]
@@ -87,14 +87,14 @@ ResetShared(P) ==
     /\ finished' = FALSE /\ out' = <<>>
 ResetImpl ==
     /\ jg' = [x \in {} |-> 0] /\ jlow' = [x \in {} |-> 0]
-    /\ jmatch' = [x \in {} |-> <<>>] /\ jspec' = [x \in {} |-> <<>>] /\ jrep' = {}
+    /\ jmatch' = [x \in {} |-> <<>>] /\ jspec' = [x \in {} |-> <<>>] /\ jrep' = {} /\ nbar' = 0
     /\ uq' = [s \in 1..Ln.n |-> <<>>] /\ ulow' = Zero(Ln.n)
 
 TrInit ==
     /\ l = 1 /\ HWInit
     /\ cfg = [kind |-> "none"] /\ parents = <<>> /\ idx = <<>> /\ closed = <<>>
     /\ finished = TRUE /\ out = <<>>
-    /\ jg = <<>> /\ jlow = <<>> /\ jmatch = <<>> /\ jspec = <<>> /\ jrep = {}
+    /\ jg = <<>> /\ jlow = <<>> /\ jmatch = <<>> /\ jspec = <<>> /\ jrep = {} /\ nbar = 0
     /\ uq = <<>> /\ ulow = <<>>
 
 (* ================= verdict level ================= *)
@@ -130,7 +130,18 @@ VFinish ==
     /\ finished' = TRUE
     /\ UNCHANGED <<cfg, parents, idx, closed, implvars>>
 
-VNext == VReset \/ VDeliver \/ VClose \/ VFinish
+(* a pause of the driver during which wall-clock driven barrier nodes upstream  *)
+(* (barrier().idle) may have sent barriers: whatever that released must still   *)
+(* be a reference pairing                                                        *)
+VSleep ==
+    /\ IsEv("Sleep") /\ ~finished
+    /\ LET os == out \o DecAll(parents, Ln.out)
+       IN /\ \A i \in DOMAIN Ln.out : LineOK(parents, Ln.out[i])
+          /\ VSafe(parents, idx, os)
+          /\ out' = os
+    /\ UNCHANGED <<cfg, parents, idx, closed, finished, implvars>>
+
+VNext == VReset \/ VDeliver \/ VClose \/ VSleep \/ VFinish
 VSpec == TrInit /\ [][VNext]_tvars
 
 (* ================= drift level ================= *)
@@ -154,7 +165,7 @@ IDeliver ==
     /\ IsEv("Deliver")
     /\ LET s == ImplSrc(cfg.n, Ln.src + 1)
        IN /\ Ln.k = idx[s] + 1
-          /\ IF cfg.kind = "union" THEN U!UDeliver(s) /\ UNCHANGED <<jg, jlow, jmatch, jspec, jrep>>
+          /\ IF cfg.kind = "union" THEN U!UDeliver(s) /\ UNCHANGED <<jg, jlow, jmatch, jspec, jrep, nbar>>
              ELSE J!JDeliver(s) /\ UNCHANGED <<uq, ulow>>
     /\ SameOuts(Ln.out)
 
@@ -169,10 +180,10 @@ IFinish ==
     /\ finished' = TRUE
     /\ IF cfg.kind = "union"
        THEN LET r == U!EmitReady(uq, ulow, TRUE)
-            IN uq' = r.q /\ ulow' = r.lm /\ out' = out \o r.outs /\ UNCHANGED <<jg, jlow, jmatch, jspec, jrep>>
+            IN uq' = r.q /\ ulow' = r.lm /\ out' = out \o r.outs /\ UNCHANGED <<jg, jlow, jmatch, jspec, jrep, nbar>>
        ELSE LET a == J!Apply(jg, IF cfg.on THEN J!FlushSpec(DOMAIN jspec) ELSE <<>>)
                 r == J!FinishGroups(a.groups, DOMAIN a.groups)
-            IN jg' = r.groups /\ out' = out \o a.outs \o r.outs /\ UNCHANGED <<jlow, jmatch, jspec, jrep, uq, ulow>>
+            IN jg' = r.groups /\ out' = out \o a.outs \o r.outs /\ UNCHANGED <<jlow, jmatch, jspec, jrep, nbar, uq, ulow>>
     /\ SameOuts(Ln.out)
     /\ UNCHANGED <<cfg, parents, idx>>
 
